@@ -19,7 +19,7 @@ Print Assumptions Gen_mapranges_nonvacuous.
 (* ---------- history independence w.r.t. the OpenAPI package-level state (model Glob/OpenApiState.v) ---------- *)
 
 
-(* FULL statement (after the repairs of SetSchema / initSchema, /repo <COMMIT>): what a build observes of the OpenAPI
+(* FULL statement (after the repairs of SetSchema / initSchema, /repo 66a399d, 8b04412, 5e76c27): what a build observes of the OpenAPI
    state does not depend on the builds that ran before it — every build (no openapi field, explicit version, custom
    schema, rejected combinations, sub-kustomizations with their own field), histories of any length.
    Hypotheses: env_ok (the default built-in version is compiled in, the kustomization API document parses, their
